@@ -25,12 +25,23 @@ spec -> code: TLC builds argument lists by actions (a bottom-up stack machine, s
     values must equal the expected ones with equal types (SafeString-ness ignored).  Leaves are valued by
     stock Django: FilterExpression(canonical text).resolve(context); nested-template strings by
     a stock Lexer/Parser render.  Invalid lists must raise TemplateSyntaxError.
+    Place: every tag stands behind {% load vf_c02_ext i18n l10n %} (TagArgs!Loaded; vf_c02_ext is a
+    library of this check that is not a builtin); leaves and nested strings - single-tag and
+    rendered - use filters / tags of those libraries in every argument position and mean what a
+    stock parser that has seen the same {% load %} makes of them.
+    Moment: the denotation is per context (TagArgs!DenoteIn; Ctx2 gives every variable another
+    value).  Every compiled template is rendered more than once: the probe tag with both contexts
+    in every layout and - in one layout per list - inside {% for it in its %} (four evaluations of
+    one tag instance, the loop variable feeding filter arguments such as "k"|add:it), the
+    component tag / shorthand tag / slot with both contexts in one layout per list.  Every
+    evaluation must hand over the values of ITS context / iteration.
 code -> spec: a seeded random driver builds deeper / wider lists (over the syntax-sensitive and the
     value-sensitive leaves together) with random styles (knob values outside the covering array),
     renders them with its own text function, runs the real tags and
     records what they received; TLC (Trace_C02) checks for every record that the text is
     Text(args, style) of the specification and that the received values are Denote(args) with the
-    recorded stock leaf values (one ACCEPT/REJECT per record).
+    recorded stock leaf values (one ACCEPT/REJECT per record) - for the first render with Ctx and for
+    the second render of the same compiled template with Ctx2 (DenoteIn(Ctx2, args)).
 
 Unspecified zones (not generated): a leading `:` in a key (`:href=`); the same keyword given twice
 or by a spread and a keyword (docs: right-most wins, C11: TypeError); positional after keyword
@@ -68,18 +79,25 @@ RULE = ("TLC (MC_C02) enumerates by BFS every argument list inside the bounds of
         "and N/M (value-sensitive alphabets: None / falsy values, HTML-special text in every argument position) and "
         "samples deeper ones with -simulate (S); each list is replayed on the probe tag and on the component tag "
         "in k layouts of a 15-row pairwise covering array (quick k=3, thorough k=5 - N/M: 3 -, rotating with the case number); "
-        "random deeper lists are validated by Trace_C02.  Non-trivial = anything but a single plain positional "
+        "every compiled template is rendered with two contexts that differ in every variable (probe tag: every "
+        "layout, once inside a {% for %}; component / shorthand / slot: one layout per list), behind a {% load %} of "
+        "three libraries whose filters / tags the value alphabets use; "
+        "random deeper lists are validated by Trace_C02 in both renders.  Non-trivial = anything but a single plain positional "
         "leaf; distinct by hash of the abstract argument list")
 ASSUMPTIONS = [
     "the meaning of a leaf is FilterExpression(canonical text).resolve(context) of the installed Django; "
     "of a nested-template string the text a stock Lexer/Parser render produces",
     "all whitespace points of one kind share one value within a text (per-kind, not per-point layouts)",
     "dict results are compared as Python dicts (order-insensitive); SafeString counts as str",
+    "two renders per compiled template (and two loop iterations) stand for 'rendered again with other data'; "
+    "the loaded libraries are one custom library (a filter, a simple_tag), i18n and l10n",
     "context values: int, str (also with & < > ' \"), SafeString, None, bool, 0, '', lists and dicts of these "
     "(None / 0 / '' / text as dict keys); no floats, lazy strings, callables or objects with attributes",
     "top-level `...[..]` / `...{..}` is valid (docstring is contradictory; tests and changelog use it)",
 ]
 PROBE_TAG = "vfprobe"
+EXT_LIB = "vf_c02_ext"
+HDR_KEYS = ("ctx", "ctxs", "loopctxs", "loopvar", "loopover", "loaded")
 PROBE_COMP = "vf_probe_c02"
 SHORT_TAG = "vf_short_c02"
 PATHS = ("probe", "comp", "short", "slot")
@@ -188,17 +206,57 @@ def env() -> Dict[str, Any]:
     def slot_fill(ctx, data, ref):      # Python-side fill of slot "s": receives the slot data
         rec.append(("slot", (), dict(data), None))
         return "[S]"
+
+    # a library that is NOT a builtin: templates get it with {% load vf_c02_ext %} (TagArgs!Loaded).
+    # What its filter and tag compute is irrelevant - stock Django gives the expected values.
+    xlib = Library()
+
+    @xlib.filter
+    def vfwrap(value, arg="|"):
+        return f"{arg}{value}{arg}"
+
+    @xlib.simple_tag
+    def vfjoin(*args):
+        return "+".join(str(a) for a in args)
+
+    eng.template_libraries[EXT_LIB] = xlib
     _ENV["slot_fill"] = slot_fill
     _ENV["Component"] = Component
-    _ENV.update(rec=rec, engine=eng, parser=Parser([], builtins=eng.template_builtins), stock={}, ctx=None)
+    _ENV.update(rec=rec, engine=eng, parser=Parser([], builtins=eng.template_builtins), stock={}, ctx=None, cx={},
+                preamble="", loop=None)
     return _ENV
 
 
 def set_ctx(ctxspec: Dict[str, Any]) -> None:
+    """One context only (context id 0)."""
     e = env()
     e["ctxspec"] = ctxspec
     e["ctx"] = {k: lit(v) for k, v in ctxspec.items()}
+    e["cx"] = {0: e["ctx"]}
     e["stock"] = {}
+
+
+def set_header(header: Dict[str, Any]) -> None:
+    """Everything the specification's export header fixes: the contexts a compiled template is
+    rendered with (ids 0, 1, ..), the contexts of the iterations of {% for it in its %} (ids
+    (k, i)), the loop variable, and the libraries loaded in front of every tag."""
+    e = env()
+    set_ctx(header["ctx"])
+    for k, c in enumerate(header.get("ctxs", [])):
+        e["cx"][k] = {n: lit(v) for n, v in c.items()}
+    for k, cs in enumerate(header.get("loopctxs", [])):
+        for i, c in enumerate(cs):
+            e["cx"][(k, i)] = {n: lit(v) for n, v in c.items()}
+    e["ctx"] = e["cx"][0]
+    e["loop"] = (header["loopvar"], header["loopover"]) if "loopvar" in header else None
+    loaded = header.get("loaded", [])
+    e["preamble"] = "{% load " + " ".join(loaded) + " %}" if loaded else ""
+    # stock Django's view of the place where the tags stand: a parser that has seen the same {% load %}
+    from django.template.base import Lexer, Parser
+    sp = Parser(Lexer(e["preamble"]).tokenize(), libraries=e["engine"].template_libraries,
+                builtins=e["engine"].template_builtins)
+    sp.parse()
+    e["parser"] = sp
 
 
 def lit(v: Dict[str, Any]) -> Any:
@@ -231,75 +289,78 @@ def _dummy_template():
     return e["dummy"]
 
 
-def stock_leaf(text: str) -> Any:
-    """Value of `text` as a stock Django filter expression under the case context."""
+def stock_leaf(text: str, cid: Any = 0) -> Any:
+    """Value of `text` as a stock Django filter expression (after the same {% load %}) under
+    context `cid`."""
     e = env()
-    key = ("leaf", text)
+    key = ("leaf", text, cid)
     if key not in e["stock"]:
         from django.template import Context
         from django.template.base import FilterExpression
-        c = Context(dict(e["ctx"]))
+        c = Context(dict(e["cx"][cid]))
         with c.bind_template(_dummy_template()):     # only gives access to engine.string_if_invalid
             e["stock"][key] = FilterExpression(text, e["parser"]).resolve(c)
     return e["stock"][key]
 
 
-def stock_render(src: str) -> str:
-    """Text rendered by stock Django for a template source (plain Lexer + Parser, no Template class)."""
+def stock_render(src: str, cid: Any = 0) -> str:
+    """Text rendered by stock Django for a template source (plain Lexer + Parser, no Template
+    class) that stands behind the same {% load %} as the tag."""
     e = env()
-    key = ("render", src)
+    key = ("render", src, cid)
     if key not in e["stock"]:
         from django.template import Context
         from django.template.base import Lexer, Parser
-        p = Parser(Lexer(src).tokenize(), builtins=e["engine"].template_builtins)
-        c = Context(dict(e["ctx"]))
+        p = Parser(Lexer(e["preamble"] + src).tokenize(), libraries=e["engine"].template_libraries,
+                   builtins=e["engine"].template_builtins)
+        c = Context(dict(e["cx"][cid]))
         with c.bind_template(_dummy_template()):
             e["stock"][key] = p.parse().render(c)
     return e["stock"][key]
 
 
-def value_of(v: Dict[str, Any]) -> Any:
-    """Expected Python value of a Denote result (leaves valued by stock Django)."""
+def value_of(v: Dict[str, Any], cid: Any = 0) -> Any:
+    """Expected Python value of a Denote result (leaves valued by stock Django in context cid)."""
     t = v["t"]
     if t in ("int", "str", "none", "bool"):
         return lit(v)
     if t == "leaf":
-        return stock_leaf("".join(v["e"]))
+        return stock_leaf("".join(v["e"]), cid)
     if t == "render":
-        return stock_render("".join(v["e"]))
+        return stock_render("".join(v["e"]), cid)
     if t == "list":
         out: List[Any] = []
         for x in v["items"]:
             if x.get("t") == "splice":
-                out.extend(value_of(x["of"]))
+                out.extend(value_of(x["of"], cid))
             else:
-                out.append(value_of(x))
+                out.append(value_of(x, cid))
         return out
     if t == "dict":
         d: Dict[Any, Any] = {}
         for x in v["items"]:
             if x.get("t") == "splice":
-                d.update(value_of(x["of"]))
+                d.update(value_of(x["of"], cid))
             else:
-                d[value_of(x["k"])] = value_of(x["v"])
+                d[value_of(x["k"], cid)] = value_of(x["v"], cid)
         return d
     raise MachineryError(f"unknown value {v}")
 
 
-def expected_call(exp: Dict[str, Any]) -> Tuple[List[Any], Dict[str, Any], set]:
+def expected_call(exp: Dict[str, Any], cid: Any = 0) -> Tuple[List[Any], Dict[str, Any], set]:
     args: List[Any] = []
     for x in exp["args"]:
         if x.get("t") == "splice":
-            args.extend(value_of(x["of"]))
+            args.extend(value_of(x["of"], cid))
         else:
-            args.append(value_of(x))
+            args.append(value_of(x, cid))
     kwargs: Dict[str, Any] = {}
     for x in exp["kwargs"]:
         if x.get("t") == "splice":
-            kwargs.update(value_of(x["of"]))
+            kwargs.update(value_of(x["of"], cid))
         else:
             k = x["k"]
-            kwargs[k["s"] if k["t"] == "name" else value_of(k)] = value_of(x["v"])
+            kwargs[k["s"] if k["t"] == "name" else value_of(k, cid)] = value_of(x["v"], cid)
     return args, kwargs, set(exp["flags"])
 
 
@@ -323,43 +384,73 @@ def same(a: Any, b: Any) -> bool:
 
 
 # ------------------------------------------------------------------ real code
-def source(path: str, text: str, slash: bool) -> str:
+def source(path: str, text: str, slash: bool, loop: bool = False) -> str:
+    """{% load .. %} of the specification's libraries, then the tag (loop: inside {% for it in its %})."""
+    e = env()
     if path == "probe":
-        return "{% " + PROBE_TAG + " " + text + " %}" + ("" if slash else "B{% end" + PROBE_TAG + " %}") + "T"
-    if path == "short":
-        return "{% " + SHORT_TAG + " " + text + " %}" + ("" if slash else "{% end" + SHORT_TAG + " %}") + "T"
-    if path == "slot":
-        return '{% slot "s" ' + text + " %}" + ("" if slash else "B{% endslot %}") + "T"
-    return "{% component '" + PROBE_COMP + "' " + text + " %}" + ("" if slash else "{% endcomponent %}") + "T"
+        tag = "{% " + PROBE_TAG + " " + text + " %}" + ("" if slash else "B{% end" + PROBE_TAG + " %}")
+    elif path == "short":
+        tag = "{% " + SHORT_TAG + " " + text + " %}" + ("" if slash else "{% end" + SHORT_TAG + " %}")
+    elif path == "slot":
+        tag = '{% slot "s" ' + text + " %}" + ("" if slash else "B{% endslot %}")
+    else:
+        tag = "{% component '" + PROBE_COMP + "' " + text + " %}" + ("" if slash else "{% endcomponent %}")
+    if loop:
+        var, over = e["loop"]
+        tag = "{% for " + var + " in " + over + " %}" + tag + "{% endfor %}"
+    return e["preamble"] + tag + "T"
 
 
-WANT_OUT = {"probe": "[P]T", "comp": "[C]T", "short": "[H]T", "slot": "[S]T"}
+WANT_OUT = {"probe": "[P]", "comp": "[C]", "short": "[H]", "slot": "[S]"}
 
 
-def observe(path: str, text: str, slash: bool) -> Dict[str, Any]:
-    """Render the text inside the receiver `path`.  -> {"o": "values", args, kwargs, flags}
-    | {"o": "tse"} | {"o": "exc:<Class>"} | {"o": "malformed", ...}"""
+def observe_runs(path: str, text: str, slash: bool, runs: List[Any], loop: bool = False) -> List[List[Dict[str, Any]]]:
+    """Compile the text inside the receiver `path` ONCE and render that compiled template once per
+    context id in `runs` (loop: the tag stands in {% for it in its %}).  -> per run, per evaluation
+    of the tag (one, or one per loop item): {"o": "values", args, kwargs, flags} | {"o": "tse"} |
+    {"o": "exc:<Class>"} | {"o": "malformed", ...}"""
     from django.template import Context, Template, TemplateSyntaxError
     e = env()
     rec = e["rec"]
-    del rec[:]
+    src = source(path, text, slash, loop)
+
+    def failed(ex, n):
+        o = "tse" if isinstance(ex, TemplateSyntaxError) else "exc:" + type(ex).__name__
+        return [{"o": o, "msg": str(ex)[:200]} for _ in range(n)]
+
+    def evals(cid):
+        return len(e["cx"][cid][e["loop"][1]]) if loop else 1
+    tpl = host = None
     try:
         if path == "slot":
             # a host component whose template is the {% slot %} tag; the fill is a Python function
-            host = type("VfSlotHostC02", (e["Component"],), {"template": source(path, text, slash)})
-            out = host.render(slots={"s": e["slot_fill"]}, context=Context(dict(e["ctx"])))
+            host = type("VfSlotHostC02", (e["Component"],), {"template": src})
         else:
-            out = Template(source(path, text, slash)).render(Context(dict(e["ctx"])))
-    except TemplateSyntaxError as ex:
-        return {"o": "tse", "msg": str(ex)[:200]}
+            tpl = Template(src)
     except Exception as ex:  # noqa: BLE001 - the outcome class is what is observed
-        return {"o": "exc:" + type(ex).__name__, "msg": str(ex)[:200]}
-    mine = [r for r in rec if r[0] == path]
-    out = re.sub(r"<!-- _RENDERED [^>]*-->", "", out)
-    if len(mine) != 1 or out != WANT_OUT[path]:
-        return {"o": "malformed", "calls": len(mine), "out": out[:200]}
-    _, a, kw, fl = mine[0]
-    return {"o": "values", "args": list(a), "kwargs": dict(kw), "flags": fl}
+        return [failed(ex, evals(cid)) for cid in runs]
+    res = []
+    for cid in runs:
+        del rec[:]
+        n = evals(cid)
+        try:
+            c = Context(dict(e["cx"][cid]))
+            out = host.render(slots={"s": e["slot_fill"]}, context=c) if host is not None else tpl.render(c)
+        except Exception as ex:  # noqa: BLE001
+            res.append(failed(ex, n))
+            continue
+        mine = [r for r in rec if r[0] == path]
+        out = re.sub(r"<!-- _RENDERED [^>]*-->", "", out)
+        if len(mine) != n or out != WANT_OUT[path] * n + "T":
+            res.append([{"o": "malformed", "calls": len(mine), "out": out[:200]} for _ in range(n)])
+        else:
+            res.append([{"o": "values", "args": list(a), "kwargs": dict(kw), "flags": fl} for _, a, kw, fl in mine])
+    return res
+
+
+def observe(path: str, text: str, slash: bool) -> Dict[str, Any]:
+    """One compile, one render with the first context."""
+    return observe_runs(path, text, slash, [0])[0][0]
 
 
 def compare(obs: Dict[str, Any], outcomes, exp: Optional[Tuple[List[Any], Dict[str, Any], set]], path: str) -> bool:
@@ -380,43 +471,65 @@ def show(obs: Dict[str, Any]) -> Dict[str, Any]:
 
 
 def check_case(case: Dict[str, Any], styles: List[Dict[str, Any]], sfrom: int,
-               pick: Optional[List[int]] = None) -> List[Dict[str, Any]]:
+               pick: Optional[List[int]] = None, form: Optional[bool] = None) -> List[Dict[str, Any]]:
     """Replay one exported case under the exported styles (`pick`: positions in case["texts"],
-    default all) on both paths; -> list of failures."""
+    default all); -> list of failures.  Every compiled template is rendered more than once:
+    in the first replayed layout (form True) the probe tag stands in {% for it in its %} and is
+    rendered with both contexts (four evaluations of one tag instance), the component tag, the
+    shorthand tag and - for keyword-only lists - the slot are rendered with both contexts; in the
+    other layouts (form False) the probe tag with both contexts, the component tag with the first.
+    Each evaluation must hand over what the arguments denote in ITS context (case["expects"][k],
+    leaves valued by stock Django in that context / loop iteration)."""
+    e = env()
     fails: List[Dict[str, Any]] = []
     outcome = "tse" if case["invalid"] else "values"
-    try:
-        exp = None if case["invalid"] else expected_call(case["expect"])
-    except Exception as ex:  # stock Django cannot value a leaf: the case is outside the model
-        raise MachineryError(f"stock evaluation failed for {case['args']}: {ex!r}")
+    expects = case.get("expects") or [case["expect"]]
+    nctx = min(len(expects), len([k for k in e["cx"] if isinstance(k, int)]))
+    can_loop = e["loop"] is not None and nctx > 1
+    cache: Dict[Any, Any] = {}
+
+    def exp(k, cid):
+        if case["invalid"]:
+            return None
+        if cid not in cache:
+            try:
+                cache[cid] = expected_call(expects[k], cid)
+            except Exception as ex:  # stock Django cannot value a leaf: the case is outside the model
+                raise MachineryError(f"stock evaluation failed for {case['args']} in context {cid}: {ex!r}")
+        return cache[cid]
     seen_first = False
     for j, syms in enumerate(case["texts"]):
         if pick is not None and j not in pick:
             continue
         st = styles[sfrom - 1 + j]
         text = "".join(syms)
-        first = not seen_first
+        first = (not seen_first) if form is None else form
         seen_first = True
-        # the tag made with @template_tag and the component tag in every replayed layout; the
-        # shorthand tag and the slot (keyword-only lists) in the first one
-        paths = ["probe", "comp"] + (["short"] + (["slot"] if case.get("slot") else []) if first else [])
-        for path in paths:
-            obs = observe(path, text, st["slash"])
-            if compare(obs, [outcome], exp, path):
-                continue
-            if case["lenient"][j] and obs["o"] == "tse":     # unspecified zone: refusal is admissible
-                fails.append({"zone": "ws-before-literal-spread-operand"})
-                continue
-            key = None
-            for dev in case.get("devs", []):
-                if path not in dev["paths"]:
-                    continue
-                dexp = expected_call(dev["expect"]) if "values" in dev["outcomes"] else None
-                if compare(obs, dev["outcomes"], dexp, path):
-                    key = dev["name"]
-                    break
-            fails.append({"path": path, "style": sfrom + j, "text": text, "key": key,
-                          "expected": {"o": outcome, "call": repr(exp)}, "observed": show(obs)})
+        both = list(range(nctx))
+        plan = [("probe", both, first and can_loop), ("comp", both if first else [0], False)]
+        if first:
+            plan += [("short", both, False)] + ([("slot", both, False)] if case.get("slot") else [])
+        for path, runs, loop in plan:
+            res = observe_runs(path, text, st["slash"], runs, loop)
+            for k, obss in zip(runs, res):
+                for i, obs in enumerate(obss):
+                    cid = (k, i) if loop else k
+                    if compare(obs, [outcome], exp(k, cid), path):
+                        continue
+                    if case["lenient"][j] and obs["o"] == "tse":     # unspecified zone: refusal is admissible
+                        fails.append({"zone": "ws-before-literal-spread-operand"})
+                        continue
+                    key = None
+                    for dev in (case.get("devs", []) if k == 0 else []):   # deviations are stated for Ctx
+                        if path not in dev["paths"]:
+                            continue
+                        dexp = expected_call(dev["expect"], cid) if "values" in dev["outcomes"] else None
+                        if compare(obs, dev["outcomes"], dexp, path):
+                            key = dev["name"]
+                            break
+                    fails.append({"path": path, "style": sfrom + j, "text": text, "key": key, "form": first,
+                                  "render": {"ctx": k + 1, "loop_item": i + 1 if loop else None},
+                                  "expected": {"o": outcome, "call": repr(exp(k, cid))}, "observed": show(obs)})
     return fails
 
 
@@ -451,7 +564,7 @@ def _tlc_export(job):
 def _tlc_props(job):
     name, c, w, workers = job
     cfg = Path(w) / f"props_{name}.cfg"
-    write_cfg(cfg, c, 1, NSTYLES, ["GeneratorAgrees", "SkeletonInvariant", "SerialIsLayout", "WellFormed"])
+    write_cfg(cfg, c, 1, NSTYLES, ["GeneratorAgrees", "SkeletonInvariant", "SerialIsLayout", "WellFormed", "LoopDenotes"])
     return name, tlc.run("MC_C02", str(cfg), workers=workers, timeout=3000)
 
 
@@ -523,7 +636,7 @@ _W: Dict[str, Any] = {}
 def _init_worker(header, k):
     _W["header"] = header
     _W["k"] = k
-    set_ctx(header["ctx"])
+    set_header(header)
 
 
 def picks(idx: int, nst: int, k: Optional[int]) -> List[int]:
@@ -564,13 +677,22 @@ def replay_cases(chk: Check, header, cases, label: str, procs: int, k: Optional[
                     continue
                 nfail += 1
                 chk.violation({"kind": "replay", "config": label, "args": case["args"], "invalid": case["invalid"],
-                               "style": f["style"], "path": f["path"], "text": f["text"],
-                               "ctx": header["ctx"], "expect": case["expect"], "devs": case.get("devs", [])},
+                               "style": f["style"], "path": f["path"], "text": f["text"], "form": f["form"],
+                               "render": f["render"], "slash": header["styles"][f["style"] - 1]["slash"],
+                               "slot": bool(case.get("slot")),
+                               "hdr": {x: header[x] for x in HDR_KEYS if x in header},
+                               "expect": case["expect"], "expects": case.get("expects"), "devs": case.get("devs", [])},
                               {"expected": f["expected"], "observed": f["observed"]}, key=f["key"])
     ntexts = sum(len(picks(i, len(c["texts"]), k)) for i, c in enumerate(cases))
+    nslot = sum(1 for c in cases if c.get("slot"))
     chk.add("cases_replayed", len(cases))
     chk.add("texts_replayed", ntexts)
-    chk.add("real_renders", 2 * ntexts + len(cases) + sum(1 for c in cases if c.get("slot")))
+    # per case: first layout probe (in a loop) / comp / short (/ slot) with both contexts, the other layouts
+    # probe with both contexts and comp with the first
+    chk.add("compiled_templates", 2 * ntexts + len(cases) + nslot)
+    chk.add("real_renders", 6 * len(cases) + 2 * nslot + 3 * (ntexts - len(cases)))
+    chk.add("tag_evaluations", 8 * len(cases) + 2 * nslot + 3 * (ntexts - len(cases)))
+    chk.add("second_context_renders", 3 * len(cases) + nslot + (ntexts - len(cases)))
 
 
 def nontrivial(case) -> bool:
@@ -592,7 +714,11 @@ def spec_to_code(chk: Check, tier: str, procs: int, with_props: bool = True, sim
     """exports: what export_cases(.., lazy_props=True) returned, if the TLC runs were started before."""
     res, props = exports or export_cases(tier, workdir("c02mc"), with_props=with_props, sim=sim, seed=chk.seed,
                                          lazy_props=True)
+    ph = chk.cov.setdefault("phase_wall_s", {})
+    t0 = time.time()
     for name, (r, out) in res:
+        ph["wait_" + name] = round(time.time() - t0, 1)
+        t0 = time.time()
         header, cases = read_cases(out)
         if name in SIM_CONFIGS:     # simulation revisits states: one line per visit, keep distinct lists
             seen, uniq = set(), []
@@ -615,7 +741,11 @@ def spec_to_code(chk: Check, tier: str, procs: int, with_props: bool = True, sim
                     "expect": mid["expect"], "invalid": mid["invalid"]}, limit=8)
         # the value-sensitive configurations in at most 3 layouts each (rotating like the others)
         replay_cases(chk, header, cases, name, procs, min(k, 3) if k and name in VALUE_CONFIGS[tier] else k)
-    for name, r in props().items():
+        ph["replay_" + name] = round(time.time() - t0, 1)
+        t0 = time.time()
+    prs = props()
+    ph["wait_props"] = round(time.time() - t0, 1)
+    for name, r in prs.items():
         if r.violated:
             chk.violation({"kind": "spec-invariant", "config": name},
                           {"violated": r.violated, "tlc_tail": r.out.splitlines()[-40:]})
@@ -661,7 +791,7 @@ class Gen:
 
     # value-sensitive variables of the specification's context: None / falsy values, failed
     # lookups, text with HTML-special characters (plain and marked safe), containers holding them
-    VAL_VARS = ["nn", "None", "f", "False", "True", "z", "es", "nope", "hs.1", "dh.u", "amp", "h", "sf", "hs", "dn", "dh"]
+    VAL_VARS = ["nn", "None", "f", "False", "True", "z", "es", "nope", "hs.1", "dh.u", "amp", "h", "sf", "hs", "dn", "dh", "it"]
 
     def plain_leaf(self):
         r = self.r
@@ -683,7 +813,7 @@ class Gen:
     def filt(self):
         r = self.r
         base = r.choice([V("x"), V("s"), V("xs"), V("nope"), S(1), S(2), S(3), N("42"), {"t": "trans", "id": 1},
-                         V("nn"), V("z"), V("es"), V("f"), V("amp"), V("h"), V("sf"), V("hs"), S(10)])
+                         V("nn"), V("z"), V("es"), V("f"), V("amp"), V("h"), V("sf"), V("hs"), S(10), S(4), S(6)])
         fs = []
         for _ in range(r.randint(1, 3)):
             f = r.choice([("upper",), ("lower",), ("title",), ("length",), ("first",), ("safe",),
@@ -691,7 +821,11 @@ class Gen:
                           ("add", V("x")), ("cut", S(4)), ("join", S(2)), ("default_if_none", {"t": "trans", "id": 1}),
                           ("yesno", S(2)), ("slice", S(9)),
                           ("default_if_none", V("amp")), ("default", V("nn")), ("default", V("h")), ("escape",),
-                          ("last",), ("force_escape",)])
+                          ("last",), ("force_escape",),
+                          # arguments that differ from render to render / iteration to iteration
+                          ("add", V("it")), ("default", V("amp")), ("add", V("s")),
+                          # filters of the loaded libraries
+                          ("vfwrap",), ("vfwrap", V("s")), ("unlocalize",)])
             fs.append(f)
         return F(base, *fs)
 
@@ -701,7 +835,8 @@ class Gen:
         if k >= 6:      # keys that resolve to None / a falsy value / text with HTML-special characters
             return r.choice([V("nn"), V("None"), V("False"), V("z"), V("es"), S(6), V("hs.1"), V("amp"), V("h"), V("sf"),
                              S(10), F(V("h"), ("upper",)), F(V("hs"), ("last",))]
-                            + [{"t": "tpl", "id": i} for i in (9, 10, 11, 14, 21, 22)])
+                            + [{"t": "tpl", "id": i} for i in (9, 10, 11, 14, 21, 22, 23, 26)]
+                            + [F(V("amp"), ("vfwrap",)), F(S(4), ("vfwrap",), ("upper",))])
         if k < 3:
             return S(r.choice([2, 4, 5, 6, 7]))
         if k == 3:
@@ -987,11 +1122,35 @@ def obs_record(obs: Dict[str, Any]) -> Dict[str, Any]:
             "flags": sorted(obs["flags"] or [])}
 
 
+def leaf_values(args, header, cid) -> List[Dict[str, Any]]:
+    """Stock values (context cid) of the leaves Denote can refer to; raises if stock Django does."""
+    lv = []
+    for kind, can in dict.fromkeys((k, tuple(c)) for k, c in leaves_of(args, header["canon"], header["strtab"],
+                                                                       header["tpltab"])):
+        val = stock_leaf("".join(can), cid) if kind == "leaf" else stock_render("".join(can), cid)
+        lv.append({"kind": kind, "canon": list(can), "val": typed(val)})
+    return lv
+
+
+NA = {"o": "n/a", "args": [], "kwargs": [], "flags": []}
+
+
+def observe_record(rec: Dict[str, Any], args, text: str, slash: bool, header) -> None:
+    """Fill rec[path] (first render, Ctx) and rec["r2"][path] (second render of the same compiled
+    template, Ctx2) for every receiver."""
+    for path in PATHS:
+        if path == "slot" and not slot_applies(args, header["ctx"], header["tpltab"]):
+            rec[path], rec["r2"][path] = dict(NA), dict(NA)
+        else:
+            r1, r2 = observe_runs(path, text, slash, [0, 1])
+            rec[path], rec["r2"][path] = obs_record(r1[0]), obs_record(r2[0])
+
+
 def record_traces(header, seed: int, n: int, depth: int) -> List[Dict[str, Any]]:
-    set_ctx(header["ctx"])
+    set_header(header)
     rnd = random.Random(seed)
     g = Gen(rnd, header)
-    strtab, tpltab, canon = header["strtab"], header["tpltab"], header["canon"]
+    strtab, tpltab = header["strtab"], header["tpltab"]
     out = []
     guard = 0
     while len(out) < n:
@@ -1004,19 +1163,12 @@ def record_traces(header, seed: int, n: int, depth: int) -> List[Dict[str, Any]]
         st = g.style()
         syms = text_of(args, st, strtab, tpltab)
         text = "".join(syms)
-        lv = []
         try:
-            for kind, can in dict.fromkeys((k, tuple(c)) for k, c in leaves_of(args, canon, strtab, tpltab)):
-                val = stock_leaf("".join(can)) if kind == "leaf" else stock_render("".join(can))
-                lv.append({"kind": kind, "canon": list(can), "val": typed(val)})
+            lv, lv2 = leaf_values(args, header, 0), leaf_values(args, header, 1)
         except Exception:  # noqa: BLE001 - stock Django itself raises on a leaf (e.g. 7|first): no meaning, skip
             continue
-        rec = {"id": len(out) + 1, "args": args, "style": st, "text": syms, "lv": lv}
-        for path in PATHS:
-            if path == "slot" and not slot_applies(args, header["ctx"], header["tpltab"]):
-                rec[path] = {"o": "n/a", "args": [], "kwargs": [], "flags": []}
-            else:
-                rec[path] = obs_record(observe(path, text, st["slash"]))
+        rec = {"id": len(out) + 1, "args": args, "style": st, "text": syms, "lv": lv, "r2": {"lv": lv2}}
+        observe_record(rec, args, text, st["slash"], header)
         out.append(rec)
     return out
 
@@ -1048,15 +1200,16 @@ def code_to_spec(chk: Check, header, ntraces: int, depth: int, batch: int = 400,
                 chk.count(t["args"], True)
                 continue
             chk.count(t["args"], True)
-            for what, status in zip(("layout",) + PATHS, st):
+            for (what, rn), status in zip([("layout", 1)] + [(p, 1) for p in PATHS] + [(p, 2) for p in PATHS], st):
                 if status == "ok":
                     continue
                 key = status[4:] if status.startswith("dev:") else None
                 if what == "layout":
                     raise MachineryError(f"driver text is not the specification's layout of {t['args']} / {t['style']}")
+                src = t if rn == 1 else t["r2"]
                 report("violation", {"kind": "trace", "args": t["args"], "style": t["style"], "text": text,
-                                     "path": what, "ctx": header["ctx"]},
-                       {"status": status, "observed": t[what], "stock_leaves": t["lv"]}, key=key)
+                                     "path": what, "render": rn, "hdr": {x: header[x] for x in HDR_KEYS if x in header}},
+                       {"status": status, "observed": src[what], "stock_leaves": src["lv"]}, key=key)
         report("sample", {"trace": {"text": "".join(traces[0]["text"]), "probe": traces[0]["probe"]}}, limit=10)
         total += n
         nb += 1
@@ -1064,14 +1217,15 @@ def code_to_spec(chk: Check, header, ntraces: int, depth: int, batch: int = 400,
 
 
 def _verdicts(r, n: int) -> Dict[int, Optional[List[str]]]:
+    """id -> None (ACCEPT) | statuses: layout, the four receivers in the first render, the four in the second."""
     out: Dict[int, Optional[List[str]]] = {}
     for line in r.out.splitlines():
         m = re.match(r'"ACCEPT (\d+)"$', line)
         if m:
             out[int(m.group(1))] = None
-        m = re.match(r'"REJECT (\d+) (\S+) (\S+) (\S+) (\S+) (\S+)"$', line)
+        m = re.match(r'"REJECT (\d+)((?: \S+){9})"$', line)
         if m:
-            out[int(m.group(1))] = [m.group(i) for i in range(2, 7)]
+            out[int(m.group(1))] = m.group(2).split()
     if len(out) != n:
         raise MachineryError(f"Trace_C02: {len(out)} verdicts for {n} traces\n" + "\n".join(r.out.splitlines()[-40:]))
     return out
@@ -1084,8 +1238,10 @@ def run(tier: str) -> int:
     # all TLC runs start now; while they enumerate, the random driver records its traces
     exports = export_cases(tier, w, sim=True, seed=chk.seed, lazy_props=True)
     later: List[Any] = []
+    t0 = time.time()
     code_to_spec(chk, header_only(w), ntraces=600 if tier == "quick" else 6000, depth=3 if tier == "quick" else 4,
                  later=later)
+    chk.cov.setdefault("phase_wall_s", {})["traces"] = round(time.time() - t0, 1)
     spec_to_code(chk, tier, procs=8, k=3 if tier == "quick" else 5, exports=exports)
     for what, a, kw in later:
         getattr(chk, what)(*a, **kw)
@@ -1100,34 +1256,29 @@ def replay(path: str) -> int:
     env()
     d = json.load(open(path))
     case = d["case"]
-    set_ctx(case["ctx"])
+    hdr = case.get("hdr") or {"ctx": case["ctx"]}      # (files written before the second context existed)
     kind = case.get("kind")
     if kind == "replay":
+        set_header(hdr)
         fake = {"args": case["args"], "invalid": case["invalid"], "texts": [[case["text"]]], "expect": case["expect"],
-                "devs": case.get("devs", []), "lenient": [False], "slot": case["path"] == "slot"}
-        styles = [{"slash": case["text"].rstrip().endswith("/")}]
-        fails = [f for f in check_case(fake, styles, 1) if f.get("path") == case["path"]]
+                "expects": case.get("expects"), "devs": case.get("devs", []), "lenient": [False],
+                "slot": case.get("slot", case["path"] == "slot")}
+        styles = [{"slash": case.get("slash", case["text"].rstrip().endswith("/"))}]
+        fails = [f for f in check_case(fake, styles, 1, form=case.get("form")) if f.get("path") == case["path"]]
         print(json.dumps({"text": case["text"], "path": case["path"], "failures": fails}, indent=1, default=repr))
         return 1 if fails else 0
     if kind == "trace":
         st = case["style"]
-        obs = observe(case["path"], case["text"], st["slash"])
-        print(json.dumps({"text": case["text"], "path": case["path"], "observed_now": show(obs),
-                          "recorded": d["detail"]}, indent=1, default=repr))
         w = workdir("c02rp")
         header = header_only(w)
-        set_ctx(header["ctx"])
-        strtab, tpltab = header["strtab"], header["tpltab"]
-        lv = []
-        for k, can in dict.fromkeys((k, tuple(c)) for k, c in leaves_of(case["args"], header["canon"], strtab, tpltab)):
-            val = stock_leaf("".join(can)) if k == "leaf" else stock_render("".join(can))
-            lv.append({"kind": k, "canon": list(can), "val": typed(val)})
-        rec = {"id": 1, "args": case["args"], "style": st, "text": text_of(case["args"], st, strtab, tpltab), "lv": lv,
-               }
-        for pth in PATHS:
-            rec[pth] = ({"o": "n/a", "args": [], "kwargs": [], "flags": []}
-                        if pth == "slot" and not slot_applies(case["args"], header["ctx"], header["tpltab"])
-                        else obs_record(observe(pth, case["text"], st["slash"])))
+        set_header(header)
+        rec = {"id": 1, "args": case["args"], "style": st,
+               "text": text_of(case["args"], st, header["strtab"], header["tpltab"]),
+               "lv": leaf_values(case["args"], header, 0), "r2": {"lv": leaf_values(case["args"], header, 1)}}
+        observe_record(rec, case["args"], case["text"], st["slash"], header)
+        now = rec if case.get("render", 1) == 1 else rec["r2"]
+        print(json.dumps({"text": case["text"], "path": case["path"], "render": case.get("render", 1),
+                          "observed_now": now[case["path"]], "recorded": d["detail"]}, indent=1, default=repr))
         f = w / "one.ndjson"
         tlc.write_ndjson(f, [rec])
         cfg = w / "trace.cfg"
@@ -1382,7 +1533,62 @@ def selftest(tier: str) -> int:
             out.append(p)
         return out
 
+    # ---- the place and the moment of the evaluation: loaded libraries, repeated renders
+    orig_dyn_init = dexpr.DynamicFilterExpression.__init__
+
+    def dyn_init(variant):
+        def init(self, parser, expr_str):
+            if not dexpr.is_dynamic_expression(expr_str):
+                raise dexpr.TemplateSyntaxError(f"Not a valid dynamic expression: '{expr_str}'")
+            from django.template import Engine
+            from django.template.base import Parser as P
+            self.expr = expr_str[1:-1]
+            tokens = dexpr.parse_template(self.expr)
+            if variant == "engine-default":      # "the way Template.compile_nodelist() does it"
+                eng = Engine.get_default()
+                ep = P(tokens, eng.template_libraries, eng.template_builtins, parser.origin)
+            else:                                # only the filters are handed down, the tags are the builtin ones
+                eng = Engine.get_default()
+                ep = P(tokens, builtins=eng.template_builtins)
+                ep.filters = {**parser.filters}
+            self.nodelist = ep.parse()
+        return init
+
+    orig_value_resolve = tp.TagValue.resolve
+
+    def constant_head_memoised(self, context):
+        # "constants" (FilterExpression.is_var False) are resolved on the first render only
+        c = self.compiled
+        if c is not None and getattr(c, "is_var", True) is False:
+            if not hasattr(self, "_vf_memo"):
+                self._vf_memo = c.resolve(context)
+            return self._vf_memo
+        return orig_value_resolve(self, context)
+
+    def dyn_rendered_cached(self, context):
+        # a nested string that is rendered to text is rendered once per tag instance
+        if len(self.nodelist) == 1:
+            return orig_dyn_resolve(self, context)
+        if not hasattr(self, "_vf_memo"):
+            self._vf_memo = orig_dyn_resolve(self, context)
+        return self._vf_memo
+
+    def literal_struct_memoised(self, context):
+        # list / dict literals without a spread are built once per tag instance
+        if self.type == "simple" or self.spread or any(
+                (isinstance(x, tp.TagValueStruct) and x.spread) or (isinstance(x, tp.TagValue) and x.is_spread)
+                for x in self.entries):
+            return orig_resolve(self, context)
+        if not hasattr(self, "_vf_memo"):
+            self._vf_memo = orig_resolve(self, context)
+        return self._vf_memo
+
     probes = [
+        ("nested-string-parser-from-engine-defaults", many((dexpr.DynamicFilterExpression, "__init__", dyn_init("engine-default")))),
+        ("nested-string-parser-forgets-loaded-tags", many((dexpr.DynamicFilterExpression, "__init__", dyn_init("filters-only")))),
+        ("constant-head-value-memoised", many((tp.TagValue, "resolve", constant_head_memoised))),
+        ("rendered-nested-string-cached", many((dexpr.DynamicFilterExpression, "resolve", dyn_rendered_cached))),
+        ("literal-list-dict-memoised", many((tp.TagValueStruct, "resolve", literal_struct_memoised))),
         ("dict-none-key-taken-for-no-key", many((tp.TagValueStruct, "resolve", dict_resolve("none-key")))),
         ("dict-falsy-key-taken-for-no-key", many((tp.TagValueStruct, "resolve", dict_resolve("falsy-key")))),
         ("dict-entry-with-none-value-dropped", many((tp.TagValueStruct, "resolve", dict_resolve("none-value")))),
